@@ -50,7 +50,7 @@ CFG = {
             "boundary values of every width, every value length 0..24 x 10 contents per kind, random (quick 10k+10k, thorough 1M+1M). Distinct = "
             "distinct (operation, output) lines; non-trivial = output is not an error/skip line.",
     "translated": ["sameAddressLiteral", "candidateBase.transportAddressEqual", "candidateBase.Equal", "CandidateRelatedAddress.Equal",
-                   "canonicalAddr", "addrPortEqual"],
+                   "canonicalAddr", "addrPortEqual", "addrEqual", "createAddr"],
     "trusted_base": ["netip.ParseAddr / Unmap().Is4(), canonicalAddr(netip.ParseAddr(s)) and crc32.ChecksumIEEE are uninterpreted functions in all "
                      "theorems; executable mirrors (lean/Driver/NetMirror.lean) are validated by sampling only",
                      "the IP that addrEqual compares for a candidate's resolved address is modelled as canonicalAddr(ParseAddr(Address())); "
